@@ -855,6 +855,40 @@ theorem C19_facet_history_independent (sep : Nat) (fs : List Filter) (left : Lis
   unfold facetStream facetChain
   rw [if_neg C19_tokenizers_reset_token.1]
 
+/-- the components composed: an analyzer `Simple|Whitespace → LowerCaser → SplitCompoundWords` (the
+shape of the analyzer in which the seeded change C19-C showed) in **any** state left by any
+history of texts and abandoned streams gives, for the next text and any number `k` of tokens read,
+the first `k` tokens of the stateless model — "the tokens of a text do not depend on what the
+analyzer processed before" -/
+theorem C19_analyzer_history_independent (p : Cp → Bool) (f : Nat → List Nat)
+    (g : List Nat → Option (List (List Nat))) (st : AnalyzerState) (s : Text) (k : Nat) :
+    analyzerRun p f g st s k
+      = (applyChain [Filter.lower f, Filter.split g] (scanTokens p s)).take k := by
+  simp only [analyzerRun]
+  rw [C19_scan_history_independent,
+    (C19_rewrite_filters_history_independent st.lowerBuf (scanTokens p s) f (fun _ => none) id
+      (fun _ => true)).1,
+    splitRun_emits]
+  simp [splitNewStream, C19_split_parts_cleared, applyChain]
+
+/-- for **every** filter chain behind a Simple / Whitespace tokenizer: whatever each filter's
+reusable buffers and the tokenizer's token hold when `token_stream` is called (any history of texts
+and abandoned streams), the stream's tokens — and so their first `k`, if it is abandoned in turn —
+are the stateless model's -/
+theorem C19_any_chain_history_independent (p : Cp → Bool) (owned : List Nat → Bool)
+    (fs : List Filter) (sts : List FilterState) (left : Nat) (s : Text) (k : Nat) :
+    (chainStream owned fs sts
+        (scanStream Gen.TOKENIZERS_RESET_TOKEN Gen.TOKEN_RESET_POSITION_IS_MAX p left s)).take k
+      = (applyChain fs (scanTokens p s)).take k := by
+  rw [C19_scan_history_independent, chainStream_eq_applyChain]
+
+/-- … and behind any tokenizer (its tokens given): the chain's streams do not depend on the state
+of the filters' buffers -/
+theorem C19_chain_streams_history_independent (owned : List Nat → Bool) (fs : List Filter)
+    (sts : List FilterState) (ts : List Token) :
+    chainStream owned fs sts ts = applyChain fs ts :=
+  chainStream_eq_applyChain owned fs sts ts
+
 /-- without the reset the positions of the next text continue where the last stream stopped -/
 theorem C19_scan_no_reset_counterexample :
     scanStream 0 1 (fun c => c.alnum) 4 [⟨97, true⟩] = [⟨0, 1, 5, [97]⟩] := by decide
@@ -889,6 +923,13 @@ example : (Filter.lower (fun c => [c])).Rewrites ∧ (Filter.removeLong 40).NoSp
     ∧ ∀ f ∈ [Filter.removeLong 40, Filter.lower (fun c => [c]), Filter.alnumOnly], f.NoSplit := by
   simp [Filter.Rewrites, Filter.NoSplit]
 example : Gen.DEFAULT_REMOVE_TOKEN_LENGTH ≤ Gen.DEFAULT_MAX_NUM_CHARS + 1 ∧ 4 * 3 ≤ 150 := by decide
+-- an analyzer state left by an abandoned compound: the next text is unaffected
+example : analyzerRun (fun c => c.alnum) (fun c => [c]) (fun t => if t = [97, 98] then some [[97], [98]] else none)
+    ⟨7, [1, 2, 3], [⟨0, 16, 0, [9]⟩, ⟨0, 16, 0, [8]⟩]⟩ [⟨65, true⟩, ⟨66, true⟩, ⟨32, false⟩, ⟨99, true⟩] 5
+    = [⟨0, 2, 0, [97]⟩, ⟨0, 2, 0, [98]⟩, ⟨3, 4, 1, [99]⟩] := by decide
+-- stale buffers in both filters of a chain: no effect
+example : chainStream (fun _ => false) [Filter.lower (fun c => [c]), Filter.split (fun _ => none)]
+    [⟨[1, 2], []⟩, ⟨[], [⟨0, 9, 0, [5]⟩, ⟨0, 9, 0, [6]⟩]⟩] [⟨0, 2, 0, [233]⟩] = [⟨0, 2, 0, [233]⟩] := by decide
 -- a history: a compound abandoned after its first part, then another text
 example : (1 : Nat) ≠ 0 ∧ splitHistory 1 (fun t => if t = [1, 2] then some [[1], [2]] else none) []
     [([⟨0, 16, 0, [1, 2]⟩], 1)] = [⟨0, 16, 0, [1]⟩, ⟨0, 16, 0, [2]⟩] := by decide
